@@ -114,6 +114,19 @@ Fixpoint encode_all (pb : bool) (l : list sexp) : res (list N) :=
   | x :: r => bind (encode pb x) (fun a => bind (encode_all pb r) (fun b => Ok (a ++ b)))
   end.
 
+(** ---- a history of sendEncoded calls on one connection ----
+    sendEncoded encodes into a buffer of its own and writes it to the transport only when _encode
+    returned: a refused expression (BananaError) writes nothing and leaves no state behind. *)
+Definition accepts (pb : bool) (e : sexp) : bool :=
+  match encode pb e with Ok _ => true | Err _ => false end.
+
+(** what the transport has received after the calls [es] *)
+Fixpoint send_all (pb : bool) (es : list sexp) : list N :=
+  match es with
+  | [] => []
+  | e :: r => match encode pb e with Ok b => b ++ send_all pb r | Err _ => send_all pb r end
+  end.
+
 (** ---- decoder ---- *)
 Inductive step_res :=
 | NeedMore
